@@ -37,6 +37,9 @@ def graph_run(prop, tier, seed, module, mc_module, cfgs, required_tags, level_no
             # a larger model than TLC can enumerate: random behaviours (TLC simulation mode); the transitions seen form a graph
             # connected to the initial state, which is replayed like the exhaustive ones
             num, depth = (150, 14) if tier == "quick" else (1500, 16)
+            if "MC_Qos_" in cfg:
+                # every replayed transition runs real participants with discovery in the simulation: fewer behaviours
+                num, depth = (150, 14) if tier == "quick" else (400, 14)
             if "C20_walk" in cfg or "C23_walk" in cfg:
                 # every state of these models has some hundred access successors (masks x max_samples x instance): fewer behaviours
                 num, depth = (60, 12) if tier == "quick" else (300, 14)
